@@ -64,7 +64,14 @@ def handle(c):
     om_res, exc = None, None
     try:
         ix = indexer(idx, src_shape=shape, flat_src=flat)
-        pos = ints(ix.shaped_array())
+        sa = ix.shaped_array()
+        if not flat and len(shape) > 1 and c['idx']['t'] in ('int', 'arr'):
+            # for a non-flat N-D source the shaped array of an int / index-array indexer is the
+            # first-axis index array (pinned by the repository's test_int_nonflat); the flat source
+            # positions OpenMDAO derives from it are obtained by applying it to the source
+            pos = ints(np.arange(size).reshape(shape)[sa])
+        else:
+            pos = ints(sa)
         shp = [int(d) for d in ix.indexed_src_shape]
         om_res = [pos, shp]
         # indexed_val must agree with the derived positions
